@@ -116,12 +116,11 @@ fn create_next_state<C: ContentAddrStore>(
     relevant_coins: &FxHashMap<CoinID, CoinDataHeight>,
     is_tip_906: bool,
 ) -> Result<UnsealedState<C>, StateError> {
+    // First create every output of the batch, and only then consume the inputs: a transaction may
+    // spend an output of a transaction that comes later in the batch (a block's transactions are
+    // an unordered set), and removing such an input before it was inserted would leave it unspent.
     for tx in transactions {
         let txhash = tx.hash_nosigs();
-
-        if tx.kind == TxKind::Faucet {
-            handle_faucet_tx(&mut next_state, tx)?;
-        }
 
         for (i, _) in tx.outputs.iter().enumerate() {
             let coinid = CoinID::new(txhash, i as u8);
@@ -132,6 +131,12 @@ fn create_next_state<C: ContentAddrStore>(
                     .insert_coin(coinid, coin_data.clone(), is_tip_906);
             }
         }
+    }
+    for tx in transactions {
+        if tx.kind == TxKind::Faucet {
+            handle_faucet_tx(&mut next_state, tx)?;
+        }
+
         for coinid in tx.inputs.iter() {
             next_state.coins.remove_coin(*coinid, is_tip_906);
         }
